@@ -1,6 +1,7 @@
 """Kernels of the RPC client shell (_rpc/_client.py, _rpc/_auth.py, _client.py glue): C13, C15, C16."""
 import ast
 
+from ..flow import Flow
 from ..kernels import Kernel as K, Unsupported, _walk_own
 
 
@@ -126,4 +127,36 @@ CONSTS = [
     ("c_PFC_FIRST_LAST", "dpapi_ng._rpc._pdu", "int(PacketFlags.PFC_FIRST_FRAG | PacketFlags.PFC_LAST_FRAG)", "Z"),
     ("c_ACCEPTANCE", "dpapi_ng._rpc._bind", "int(ContextResultCode.ACCEPTANCE)", "Z"),
     ("c_PKT_PRIVACY", "dpapi_ng._rpc._pdu", "int(AuthenticationLevel.RPC_C_AUTHN_LEVEL_PKT_PRIVACY)", "Z"),
+    # names the flows (gen/F_client.v) mention, for the world coq/Flow/World_client.v
+    ("c_PFC_FIRST_FRAG", "dpapi_ng._rpc._pdu", "int(PacketFlags.PFC_FIRST_FRAG)", "Z"),
+    ("c_PFC_LAST_FRAG", "dpapi_ng._rpc._pdu", "int(PacketFlags.PFC_LAST_FRAG)", "Z"),
+]
+
+A = "_rpc/_auth.py"
+
+# whole functions as Prelude/PyAst syntax (gen/F_client.v).  Worlds: coq/Flow/World_client_hs.v (the abstraction of Model/Handshake.v),
+# coq/Flow/World_client.v (concrete records).  Tie theorems: coq/Proofs/Flow_client_hs.v (C15), Flow_client_frame.v (C13),
+# Flow_client_seal.v (C16), Flow_client_conv.v (C17).
+FLOWS = [
+    # ---- handshake (C15; the two PDU builders also against the concrete Bind records of Model/Conversation.v, C17)
+    Flow("k_flow_process_bind_result", "_client.py", "_process_bind_result", props=("C15",)),
+    Flow("k_flow_create_bind", F, "RpcClient._create_bind", props=("C15", "C17")),
+    Flow("k_flow_create_alter_context", F, "RpcClient._create_alter_context", props=("C15", "C17")),
+    Flow("k_flow_process_bind_ack", F, "RpcClient._process_bind_ack", props=("C15",)),
+    Flow("k_flow_sync_bind", F, "SyncRpcClient.bind", props=("C15",)),
+    Flow("k_flow_async_bind", F, "AsyncRpcClient.bind", props=("C15",)),
+    # ---- request framing (C13)
+    Flow("k_flow_create_pdu_header", F, "RpcClient._create_pdu_header", props=("C13",)),
+    Flow("k_flow_create_request", F, "RpcClient._create_request", props=("C13",)),
+    Flow("k_flow_prepare_pdu", F, "RpcClient._prepare_pdu", props=("C13",)),      # translated, NOT tied: store through a memoryview alias
+    Flow("k_flow_auth_wrap", A, "AuthenticationProvider.wrap", props=("C13",)),
+    Flow("k_flow_strip_get_key_result", "_client.py", "_process_get_key_result", props=("C13",)),
+    # ---- sealed replies (C16)
+    Flow("k_flow_process_response", F, "RpcClient._process_response", props=("C16",)),
+    Flow("k_flow_auth_unwrap", A, "AuthenticationProvider.unwrap", props=("C16",)),
+    # ---- the conversation's steps (C17)
+    Flow("k_flow_sync_request", F, "SyncRpcClient.request", props=("C17",)),
+    Flow("k_flow_async_request", F, "AsyncRpcClient.request", props=("C17",)),
+    Flow("k_flow_auth_step", A, "AuthenticationProvider.step", props=("C17",)),
+    Flow("k_flow_auth_complete", A, "AuthenticationProvider.complete", props=("C17",)),
 ]
